@@ -14,6 +14,9 @@ CFG = {
         "Leptos.Ambient.C20_unwrapped_leaks_witness",
         "Leptos.Ambient.C20_unguarded_rerun_witness",
         "Leptos.Ambient.C20_unsandboxed_stream_witness",
+        "Leptos.Ambient.C20_owner_already_current",
+        "Leptos.Ambient.C20_owner_current_witness",
+        "Leptos.Ambient.C20_assembly_witness",
         "Leptos.Ambient.poll_core",
         "Leptos.Ambient.runSteps_guarded",
         "Leptos.Ambient.pollTask_arena",
@@ -33,20 +36,22 @@ CFG = {
             "Action dispatched while rendering / Effect::new_isomorphic / Resource, ArcResource, AsyncDerived, ArcAsyncDerived whose fetcher RE-RUNS (source set in the same render = before the task's first poll, "
             "set later, refetch()) reporting in its sync part, async part and after its await / bodies behind both Sandboxed entry points (a user stream chained behind the app stream inside the response body's "
             "Sandboxed = Stream::poll_next; reactive_graph::spawn tasks = Future::poll) reading arena handles with and without an owner entered / arena items (RwSignal, StoredValue) allocated in a child owner and read after a later await / "
-            "For / fragment (every async leaf's future reports AFTER its own await), nested to depth 3 (4 in thorough), one case in three renders the SAME page in every request (same arena keys), one request in four routed (Router + FlatRoutes or Routes, the program being the matched route's view), in-order or out-of-order streams, rendered CONCURRENTLY on one "
-            "thread through the real build_response; schedule = random sequence of start r / fire r g / ps r (r's tasks + stream to a fixpoint) / "
+            "For / fragment (every async leaf's future reports AFTER its own await), nested to depth 3 (4 in thorough), one case in three renders the SAME page in every request (same arena keys), one request in four routed (Router + FlatRoutes or Routes, the program being the matched route's view), in-order / out-of-order streaming or ASYNC rendering mode (whole app awaited, then the hydration chunks requested), rendered CONCURRENTLY on one "
+            "thread through the real from_app/build_response (the response future is polled by hand OUTSIDE Sandboxed until the first chunk exists; futures the handler side polls itself - "
+            "a ScopedFuture, an Owner::with re-entry - while the request's root may still be the thread's current owner); every response carries a marker resource in its hydration data "
+            "and the observable includes whose marker each response carries (h=<request>); schedule = random sequence of start r / fire r g / ps r (r's tasks + stream to a fixpoint) / "
             "poll i (i-th ready task of the controlled executor, any request) / drop r / abort r b (client abort: body dropped unpolled while request b's arena is current), then end; plus, exhaustively, ALL 80 interleavings of "
             "{start r, fire r 1, ps r} for 8 (thorough: 10) fixed program pairs all 102 interleavings x 2 of [start 0, ps 0, abort 0 1] with [start 1, ps 1, fire 1 1, ps 1] for 3 pages, and all 70 alternations of [start r, ps r, fire r 1, ps r] (r = 0, 1: two response bodies "
             "polled alternately) for 4 (thorough: 5) pages with sandboxed-only bodies and re-running resources; every case is run in two build configurations (sandboxed-arenas with "
             "the real leptos_integration_utils::build_response; global arena with build_response reproduced). Oracle: each response's HTML and leaf log "
-            "== the same request replayed ALONE with the same relative order of its own actions. Shared observable: per response, the context tags "
+            "== the same request replayed ALONE with the same relative order of its own actions. Shared observable: per response, whose hydration data it carries, whose arena items sandboxed/handler-side bodies read, and the context tags "
             "each leaf saw. distinct = distinct op text; trivial = no async boundary / cleanup / early drop (tags only in plain,in-order,ooo,for,provider). "
             "Since the repairs fix-c20-1/3/4 the shapes of the former findings F-C20-1..4 (lazy leaves, Providers, Suspenses, on_cleanup and Actions in the view of a "
             "Suspend outside Suspense; aborts of pages with on_cleanup under a foreign arena) are generated freely and must pass; only nested Suspend-in-Suspend "
             "inside Suspense (timing-dependent content, C07) is not generated",
     "trusted": [
         "hx_common::sched controlled executor standing in for any executor (one task polled at a time, one thread); streams polled by hand with a no-op waker",
-        "ExtendResponse::from_app is reproduced (stream chained with owner.unset() inside Sandboxed), not linked (needs a ServerMetaContextOutput and awaits the first chunk)",
+        "bin c20 links the REAL leptos_integration_utils::ExtendResponse::from_app (-> real build_response, await_deferred, leptos_meta inject_meta_context, first chunk awaited outside Sandboxed, body + owner.unset() inside Sandboxed) with a trivial response type; bin c20g (global arena) cannot link that crate (it forces sandboxed-arenas on for the whole build): build_response and from_app are reproduced there line by line",
         "the driver's table of which leaf is rendered where/when (Driver/C20.lean: compile/resolveNodes) — validated by the differential run, not proved",
     ],
     "modelled": [
@@ -136,7 +141,7 @@ def run(tier, seed):
     try:
         ev = json.load(open(ev_path))
         ev["coverage"]["configurations"] = [
-            {"bin": "c20", "arena": "sandboxed-arenas (per-request arenas)", "build_response": "real leptos_integration_utils::build_response",
+            {"bin": "c20", "arena": "sandboxed-arenas (per-request arenas)", "build_response": "real leptos_integration_utils::ExtendResponse::from_app + build_response",
              "cases": ev["coverage"].get("programs")}, second]
         ev["coverage"]["disagreements_checked"] = ev["coverage"].get("disagreements_checked", 0) + second.get("cases", 0)
         ev["coverage"]["level_note"] = "proof about the wrapper discipline (model); which real sites are wrapped is checked by the correspondence, not proved"
